@@ -539,12 +539,15 @@ Case gen_case(const std::string &prop, const std::string &tier, uint64_t verif_s
         return c;
     } else if (gp == "C18") {
         unsigned T = 2 + static_cast<unsigned>(r.below(3));
+        bool flow = r.chance(1, 3); // data flows between objects: every thread takes frames from one donor object (OP_ADOPT)
         for (unsigned t = 0; t < T; ++t) {
             Plan p; p.prop = prop; p.run_seed = mix(c.run_seed, t); p.fill_seed = plan.fill_seed;
             Rng tr(mix(c.run_seed, 1000 + t));
             Profile tp = profile_for("C18", tr, index);
-            if (tr.chance(1, 3)) p.steps.push_back(loadStep(pickSource(tr, false)));
+            if (flow) { Step ad; ad.op = OP_ADOPT; ad.i = {static_cast<int64_t>(mix(c.run_seed, 77) >> 1)}; p.steps.push_back(ad); } // the same donor frame for all
+            else if (tr.chance(1, 3)) p.steps.push_back(loadStep(pickSource(tr, false)));
             gen_history(tr, tp, p);
+            if (flow) { Step ad; ad.op = OP_ADOPT; ad.i = {static_cast<int64_t>(tr.next() >> 1)}; p.steps.insert(p.steps.begin() + 1 + static_cast<long>(tr.below(p.steps.size())), ad); }
             p.steps.push_back(saveStep(7));
             p.steps.push_back(reloadStep(-1));
             // the read-only side of the API (getters by name) on the final object of every thread, and once mid-way
@@ -556,7 +559,7 @@ Case gen_case(const std::string &prop, const std::string &tier, uint64_t verif_s
         c.sched.policy = static_cast<int>(r.below(3));
         c.sched.pct_depth = 1 + static_cast<int>(r.below(3));
         { static const unsigned AP[] = {0, 0, 1, 3, 7, 16, 64}; c.sched.alloc_period = AP[r.below(7)]; }
-        c.config = "threads=" + tos(T) + " policy=" + tos(c.sched.policy) + " alloc_period=" + tos(c.sched.alloc_period);
+        c.config = "threads=" + tos(T) + " policy=" + tos(c.sched.policy) + " alloc_period=" + tos(c.sched.alloc_period) + (flow ? " donor" : "");
         return c;
     } else {
         if (gp == "C16") {
@@ -677,10 +680,15 @@ CaseResult run_case(const Case &c, volatile uint64_t *progress) {
                 ExecCfg tc; tc.oracles = 0; tc.actor = "t" + tos(t); tc.capture_print = false; tc.yield_between_steps = true;
                 rrs[t] = run_plan(c.plans[t], tc);
             });
+        // the donor object of OP_ADOPT steps: a pure function of the plans (a case without such a step has none)
+        uint64_t donorSeed = 0;
+        for (auto &pl : c.plans) for (auto &s : pl.steps) if (s.op == OP_ADOPT) donorSeed = mix(c.run_seed, 555) | 1;
+        donor_make(donorSeed);
         SchedResult sr = run_scheduled(bodies, c.sched);
         for (size_t t = 0; t < c.plans.size(); ++t) disk_clear_prefix(disk_root() + "/t" + tos(t) + "/");
         for (size_t t = 0; t < c.plans.size(); ++t) {
             ExecCfg tc; tc.oracles = 0; tc.actor = "t" + tos(t); tc.capture_print = false;
+            donor_make(donorSeed); // alone: a donor nobody else has touched
             RunResult rr = run_plan(c.plans[t], tc);
             solo.push_back(rr.trace_hash);
             merge_stats(res.st, rr.st);
@@ -694,7 +702,7 @@ CaseResult run_case(const Case &c, volatile uint64_t *progress) {
                 // first differing step
                 size_t k = 0;
                 RunResult again; // solo again for the step-level comparison
-                { ExecCfg tc; tc.oracles = 0; tc.actor = "t" + tos(t); tc.capture_print = false; disk_clear_prefix(disk_root() + "/t" + tos(t) + "/"); again = run_plan(c.plans[t], tc); }
+                { ExecCfg tc; tc.oracles = 0; tc.actor = "t" + tos(t); tc.capture_print = false; disk_clear_prefix(disk_root() + "/t" + tos(t) + "/"); donor_make(donorSeed); again = run_plan(c.plans[t], tc); }
                 while (k < again.recs.size() && k < rrs[t].recs.size() && again.recs[k].snap_hash == rrs[t].recs[k].snap_hash && again.recs[k].exc == rrs[t].recs[k].exc && again.recs[k].image_hash == rrs[t].recs[k].image_hash) ++k;
                 std::string opn = k < c.plans[t].steps.size() ? op_name(c.plans[t].steps[k].op) : "?";
                 Violation v; v.prop = "C18"; v.key = "C18/solo-equivalence/" + opn; v.step = static_cast<int>(k);
@@ -723,6 +731,7 @@ CaseResult run_case(const Case &c, volatile uint64_t *progress) {
         res.nontrivial = sr.switches >= 2;
         res.sample = c.config + " decisions=" + tos(sr.decisions) + " switches=" + tos(sr.switches);
         for (size_t t = 0; t < c.plans.size(); ++t) disk_clear_prefix(disk_root() + "/t" + tos(t) + "/");
+        donor_drop();
         return res;
     }
 
